@@ -102,7 +102,7 @@ def gen(tier, rng):
     nfam = 1200 if tier == "quick" else 12000
     for _ in range(nfam):
         nd = rng.choice((2, 3, 3, 4))
-        fam = rng.choice(FAMILIES[nd][1:])
+        fam = rng.choice(FAMILIES[nd][1:] + ["wrapped"] + (["gwcs"] if nd <= 3 else []))
         shape = tuple(rng.sample([2, 3, 4, 5], nd))
         its = []
         for n in shape:
@@ -128,9 +128,12 @@ def build_cube(case):
         kw["uncertainty"] = StdDevUncertainty(data * 2.0 + 1)
     if cfg & 4:
         kw["unit"] = u.ct
-    wcs = family_wcs(case["fam"], len(shape))
+    wcs = family_wcs(case["fam"], len(shape), shape)
     if cfg & 8:
-        wcs.array_shape = shape
+        try:
+            wcs.array_shape = shape
+        except AttributeError:
+            pass              # wrappers and gWCS objects have no settable array shape
     payload = data
     if cfg & 16:
         import dask.array as da
